@@ -51,7 +51,7 @@ func (h HubCfg) String() string {
 	return string(b)
 }
 
-const hubProps = "INVARIANTS TypeOK Refines Complete VerifyNeverInForce ProvisionLoads\nPROPERTIES Sound Precise StrictGate LenientNeverDenies LenientRefreshWorks ModePromise\n"
+const hubProps = "INVARIANTS TypeOK Refines Complete VerifyNeverInForce ProvisionLoads\nPROPERTIES Sound Precise StrictGate LenientNeverDenies LenientRefreshWorks ModePromise ProvisionAcceptsAcceptable\n"
 
 // exportHubGraph model-checks Revocation.tla for one configuration (all listed properties) and
 // returns the complete labelled transition graph of that configuration.
